@@ -4,11 +4,19 @@
    readHTML, isDirectiveToken, areBracesToken) yields one text token whose literal is the input
    followed by EOF, the parser model one HTML statement, and the render of the model is the input
    itself, whatever the data; the reference scanner of Spec/Text.v is the identity on such text.
-   Decided on generated instances (not theorems): the escapes "\{{" and "\@directive", comments,
-   text around code blocks - exhaustive short strings over the escape/comment alphabet, spliced
-   segments, with the reference scanner as oracle. *)
+   Proved as well: for EVERY byte string whose only active syntax is escapes (a backslash directly
+   before "{{" or before a directive keyword, any number of them, anywhere), the lexer model
+   yields one text token holding the text with exactly those backslashes removed, the render is
+   that text, and it is what the reference scanner of Spec/Text.v says; and for EVERY lexer state
+   in text mode standing on a terminated comment, NextToken is NextToken of the state just after
+   the terminator (found where the specification's find_term finds it), still in text mode - no
+   token, whatever bytes the comment holds.
+   Decided on generated instances (not theorems): text around code blocks and directives (the
+   splice of text runs with {{ }} blocks), comments inside the whole pipeline - exhaustive short
+   strings over the escape/comment alphabet, spliced segments, with the reference scanner as
+   oracle. *)
 From Coq Require Import String.
-From TW Require Import Bytes GenToken Lexer Ast Parser Values Builtins Eval Render Text Passthrough.
+From TW Require Import Bytes GenToken Lexer Ast Parser Values Builtins Eval Render Text Passthrough Escapes Comments.
 Open Scope N_scope.
 
 Theorem C05_plain_text_renders_as_itself cx s data en :
@@ -25,6 +33,41 @@ Print Assumptions C05_plain_text_is_one_token.
 Theorem C05_reference_scanner_is_identity_on_plain_text s : plain s = true -> text_spec s = TOut s.
 Proof. exact (reference_scanner_is_identity_on_plain_text s). Qed.
 Print Assumptions C05_reference_scanner_is_identity_on_plain_text.
+
+(* ---- escapes *)
+Theorem C05_escaped_text_renders_unescaped cx s o data en :
+  esc_spec s = Some o -> env_from_map data = EnvOk en ->
+  text_spec s = TOut o /\ evaluate_string cx s data = RenderOk o.
+Proof. exact (escaped_text_renders_unescaped cx s o data en). Qed.
+Print Assumptions C05_escaped_text_renders_unescaped.
+
+Theorem C05_escaped_text_is_one_token s o :
+  s <> [] -> esc_spec s = Some o ->
+  exists t e, lex_all s = Some [t; e] /\ ttype t = T_HTML /\ tlit t = o /\ ttype e = T_EOF.
+Proof. exact (escaped_text_lexes_to_one_html_token s o). Qed.
+Print Assumptions C05_escaped_text_is_one_token.
+
+Example C05_escapes_example :
+  esc_spec (bs "a \{{ x }} b \@if(c) \\ \x @ me {") = Some (bs "a {{ x }} b @if(c) \\ \x @ me {") /\
+  esc_spec (bs "\@endif \@end") = Some (bs "@endif @end") /\
+  esc_spec (bs "{{ 1 }}") = None.
+Proof. exact escapes_example. Qed.
+
+(* ---- comments *)
+Theorem C05_comment_produces_no_token fuel l k :
+  isHTML l = true ->
+  prefixb [123; 123; 45; 45] (rest l) = true ->
+  find_term (skipn 2 (rest l)) 0 = Some k -> no_nul k (skipn 2 (rest l)) = true ->
+  exists l', nextToken (S fuel) l = nextToken fuel l' /\
+             rest l' = skipn (2 + k + 4) (rest l) /\ isHTML l' = true /\ isDirective l' = isDirective l.
+Proof. exact (comment_is_skipped fuel l k). Qed.
+Print Assumptions C05_comment_produces_no_token.
+
+Example C05_comment_example :
+  find_term (skipn 2 (bs "{{-- {{ 1 }} @if(x) -- }} --}}tail")) 0 = Some 24%nat /\
+  find_term (skipn 2 (bs "{{--}}x")) 0 = Some 0%nat /\
+  find_term (skipn 2 (bs "{{-- never closed")) 0 = None.
+Proof. exact comment_example. Qed.
 
 Example C05_example :
   plain (bs "a \ { } @ me@x.org -- <p class='q'> 100% }} {") = true /\
